@@ -678,8 +678,14 @@ fn worker_main(opts: &Opts) {
             probes.add(k, 0);
         }
     }
+    let deadline = Deadline::new(opts.get("budget").and_then(|s| s.parse().ok()).unwrap_or(u64::MAX / 4));
+    let mut skipped = 0u64;
     let mut i = wi;
     while i < total {
+        if deadline.passed() {
+            skipped = (total - i + wn - 1) / wn;
+            break;
+        }
         let idx = offset + i;
         let sub = subseed(opts.seed, &format!("{prop}/{label}"), idx);
         let case = if prop == "C07" { gen_case_c07(sub, opts.thorough()) } else { gen_case_c06(sub, opts.thorough()) };
@@ -785,7 +791,7 @@ fn worker_main(opts: &Opts) {
         "faults": faults.to_json(), "probes": probes.to_json(), "strategies": strategies.to_json(),
         "violations": violations, "samples": samples,
         "digests": digests.iter().map(|(i, d)| json!([i, format!("{d:016x}")])).collect::<Vec<_>>(),
-        "distinct_local": hashes.len(),
+        "distinct_local": hashes.len(), "skipped": skipped,
     });
     println!("{line}");
 }
@@ -794,6 +800,7 @@ fn worker_main(opts: &Opts) {
 // Parent: fans out worker processes, merges, runs the determinism self-test.
 
 struct Merged {
+    skipped: u64,
     evals: u64,
     steps: u64,
     sim_ms: u64,
@@ -807,7 +814,7 @@ struct Merged {
     hashes: BTreeSet<u64>,
 }
 
-fn fan_out(opts: &Opts, label: &str, runs: u64, offset: u64, jobs: usize, scratch: &Path, tag: &str) -> Merged {
+fn fan_out(opts: &Opts, label: &str, runs: u64, offset: u64, jobs: usize, scratch: &Path, tag: &str, budget_s: u64) -> Merged {
     let exe = std::env::current_exe().unwrap();
     let mut children = vec![];
     for w in 0..jobs {
@@ -815,7 +822,7 @@ fn fan_out(opts: &Opts, label: &str, runs: u64, offset: u64, jobs: usize, scratc
         let child = std::process::Command::new(&exe)
             .args(["--property", &opts.property, "--tier", &opts.tier, "--seed", &opts.seed.to_string()])
             .args(["--worker", &format!("{w}/{jobs}"), "--runs", &runs.to_string(), "--offset", &offset.to_string(), "--label", label])
-            .args(["--hashfile", hf.to_str().unwrap()])
+            .args(["--hashfile", hf.to_str().unwrap(), "--budget", &budget_s.to_string()])
             .stdin(std::process::Stdio::null())
             .stdout(std::process::Stdio::piped())
             .stderr(std::process::Stdio::inherit())
@@ -824,6 +831,7 @@ fn fan_out(opts: &Opts, label: &str, runs: u64, offset: u64, jobs: usize, scratc
         children.push((child, hf));
     }
     let mut m = Merged {
+        skipped: 0,
         evals: 0,
         steps: 0,
         sim_ms: 0,
@@ -845,6 +853,7 @@ fn fan_out(opts: &Opts, label: &str, runs: u64, offset: u64, jobs: usize, scratc
         let line = text.lines().last().unwrap_or("");
         let v: Value = serde_json::from_str(line).unwrap_or_else(|e| harness_error(&format!("worker output: {e}: {line:.200}")));
         m.evals += v["evals"].as_u64().unwrap_or(0);
+        m.skipped += v["skipped"].as_u64().unwrap_or(0);
         m.steps += v["steps"].as_u64().unwrap_or(0);
         m.sim_ms += v["sim_ms"].as_u64().unwrap_or(0);
         m.max_tail = m.max_tail.max(v["max_tail"].as_u64().unwrap_or(0));
@@ -924,16 +933,16 @@ fn main() {
     let scratch = Scratch::new("walkparent");
     let runs = if prop == "C07" { opts.cases(60_000, 6_000_000) } else { opts.cases(40_000, 2_500_000) };
     let jobs = opts.jobs.max(1);
-    let main = fan_out(&opts, "main", runs, 0, jobs, scratch.path(), "m");
+    let main = fan_out(&opts, "main", runs, 0, jobs, scratch.path(), "m", opts.budget_s());
     // Determinism self-test: re-run a sample of the same sub-seeds in other
     // processes with a different worker count and compare full digests
     // (schedule trace hash + visit order). A difference is a harness error.
     let st_runs = if opts.thorough() { 4_000.min(runs) } else { 600.min(runs) };
     let st_jobs = if jobs > 3 { jobs - 3 } else { jobs + 1 };
-    let again = fan_out(&opts, "main", st_runs, 0, st_jobs, scratch.path(), "s");
+    let again = fan_out(&opts, "main", st_runs, 0, st_jobs, scratch.path(), "s", opts.budget_s() / 3 + 5);
     let mut mism = 0;
     for (i, d) in &again.digests {
-        if main.digests.get(i) != Some(d) {
+        if main.digests.contains_key(i) && main.digests.get(i) != Some(d) {
             mism += 1;
             if mism <= 3 {
                 eprintln!("determinism self-test: run {i} digest {} vs {}", main.digests.get(i).cloned().unwrap_or_default(), d);
@@ -952,6 +961,11 @@ fn main() {
         rep.sample(s.clone());
     }
     rep.extra.insert("scheduling_steps".into(), json!(main.steps));
+    rep.extra.insert("runs_planned".into(), json!(runs));
+    rep.extra.insert("runs_skipped_by_time_budget".into(), json!(main.skipped));
+    if main.skipped > 0 {
+        println!("note: time budget of {} s reached, {} of {} planned runs not executed", opts.budget_s(), main.skipped, runs);
+    }
     rep.extra.insert("strategy_mix".into(), main.strategies.to_json());
     rep.extra.insert("distinct_interleavings".into(), json!(main.hashes.len()));
     rep.extra.insert("determinism_selftest".into(), json!({ "runs_reexecuted": again.digests.len(), "mismatches": 0, "worker_processes": [jobs, st_jobs] }));
